@@ -267,7 +267,7 @@ func runC07(a *args) error {
 	}
 	if a.replay == "" {
 		// recall floor: measured (statistical clause of the property; reported, not proved)
-		sizes := [][2]int{{1500, 8}, {1500, 32}, {2000, 64}}
+		sizes := [][2]int{{1500, 8}, {3000, 32}, {2000, 64}}
 		if a.tier == "thorough" {
 			sizes = [][2]int{{3000, 8}, {3000, 32}, {5000, 64}, {2000, 16}}
 		}
